@@ -425,7 +425,8 @@ class DB:
         return [f for f in self.fns.values() if r.search(f.path) and (crate is None or f.crate == crate)]
 
     def closures_of(self, fn):
-        return [f for f in self.fns.values() if f.kind == 'Closure' and f.parent == fn.path and not f.promoted_of]
+        extra = getattr(self, 'adopted_closures', {}).get(fn.path, ())
+        return [f for f in self.fns.values() if f.kind == 'Closure' and (f.parent == fn.path or f.path in extra) and not f.promoted_of]
 
     # ---- E2: call graph
     def edges(self, fn):
@@ -600,7 +601,13 @@ def load(factdir):
 
 
 def _load(factdir):
-    pk = os.path.join(factdir, 'db.pickle')
+    # the pickled DB is the fact base *after* load-time normalisation (inlining, jump threading): key it by the code that does that
+    import hashlib
+    h = hashlib.sha1()
+    for src in ('db.py', 'inline.py'):
+        with open(os.path.join(os.path.dirname(os.path.abspath(__file__)), src), 'rb') as fh:
+            h.update(fh.read())
+    pk = os.path.join(factdir, f'db-{h.hexdigest()[:12]}.pickle')
     if os.path.exists(pk):
         try:
             with open(pk, 'rb') as fh:
